@@ -65,8 +65,11 @@ def check(c):
             len(gi), 1)
     for n in gi:
         c.guard('C45.all-instances', n, ['is_abs'], so)
-    sat = c.find(so, 't.satisfy_me([itask.tokens.duplicate(task_sel=output)],'
-                 ' mode=itask.run_mode)')
+    from rules._shared import resolved
+    # (the message list may be built once in front of the loop over tasks)
+    sat = [n for n in c.find(so, 't.satisfy_me(_, mode=itask.run_mode)')
+           if norm(resolved(c, so, n.args[0], n)) ==
+           '[itask.tokens.duplicate(task_sel=output)]']
     c.exactly('C45.all-instances', 'satisfy_me for every matched task',
               len(sat), 1)
     for s in sat:
